@@ -4,6 +4,12 @@ package props
 // RunSingleModel callers do: all four arrays are cdata views on C buffers.
 
 import (
+	"fmt"
+	"os"
+	"os/exec"
+	"strings"
+	"sync"
+
 	"verif/core"
 	"github.com/flowmatters/openwater-core/data"
 	"github.com/flowmatters/openwater-core/data/cdata"
@@ -67,4 +73,51 @@ func ExecuteFor(c *core.Ctx, r *MRun) (*MOut, error) {
 	c.Tag("arrays:caller-c-memory")
 	o, _, err := ExecuteC(r, []string{"guard-after", "guard-before", "malloc"}[(c.Idx/6)%3])
 	return o, err
+}
+
+// ---------------------------------------------------------------------------
+// Series of length zero. Several kernels read step 0 before their loop and panic on a cell goroutine when there is none,
+// which ends the process; whether a model accepts an empty series is therefore asked of a child process (this binary with
+// VERIF_PROBE_EMPTY=<model>), once per model and worker. Cases with T = 0 are only generated for models that do.
+
+func init() {
+	m := os.Getenv("VERIF_PROBE_EMPTY")
+	if m == "" {
+		return
+	}
+	run := emptied(GenRun(m, core.NewRand(0x656d707479), 1, 1, 1, 1, 0))
+	if _, err := Execute(run); err != nil {
+		os.Exit(3)
+	}
+	fmt.Println("EMPTY-SERIES-OK")
+	os.Exit(0)
+}
+
+// emptied cuts every input series of r to length zero.
+func emptied(r *MRun) *MRun {
+	r.T = 0
+	for b := range r.Inputs {
+		for i := range r.Inputs[b] {
+			r.Inputs[b][i] = []float64{}
+		}
+	}
+	return r
+}
+
+var emptyOK sync.Map
+
+func EmptySeriesOK(model string) bool {
+	if v, ok := emptyOK.Load(model); ok {
+		return v.(bool)
+	}
+	self, err := os.Executable()
+	ok := false
+	if err == nil {
+		cmd := exec.Command(self)
+		cmd.Env = append(os.Environ(), "VERIF_PROBE_EMPTY="+model)
+		out, e := cmd.CombinedOutput()
+		ok = e == nil && strings.Contains(string(out), "EMPTY-SERIES-OK")
+	}
+	emptyOK.Store(model, ok)
+	return ok
 }
